@@ -1,9 +1,9 @@
 (* XPathSemP.v — slice xpath (C08): properties of the XPath semantics of XPathSem.v.
 
    Main result [eval_nodeset_sorted]: every node-set value produced by [eval] - for any expression, any context,
-   any tree whose ids are the document positions, and any setting of the as-coded switches except the one that
-   models the duplicate insertion of moveto_node_alldesc_child() - is strictly increasing in document order, hence
-   duplicate free. Further: laws of the union, predicates, '//', and the key predicate that the hash fast path of the
+   any tree whose ids are the document positions, and ANY setting of the as-coded switches (in particular the
+   reference semantics and the semantics as coded) - is strictly increasing in document order, hence duplicate
+   free. Further: laws of the union, predicates, '//', and the key predicate that the hash fast path of the
    code has to agree with. *)
 From Coq Require Import QArith.
 From LY Require Import Base XPathConv XPathTree XPathSem.
@@ -178,15 +178,14 @@ Proof. intros H0 H1. fix F 1. intros [|p r]; [exact H0|apply H1, F]. Qed.
 (* ------------------------------------------------------------------------------------------------ *)
 (* predicates select a sub-sequence                                                                 *)
 (* ------------------------------------------------------------------------------------------------ *)
-Lemma apply_preds_sorted fl t cx nca rv ps : forall skip l l' k,
-  apply_preds fl t cx nca rv skip ps l = Ok l' -> sortedZ k l = true -> sortedZ k l' = true.
+Lemma apply_preds_sorted fl t cx rv ps : forall l l' k,
+  apply_preds fl t cx rv ps l = Ok l' -> sortedZ k l = true -> sortedZ k l' = true.
 Proof.
-  induction ps as [|p r IH] using preds_ind_simple; intros skip l l' k H Hs.
+  induction ps as [|p r IH] using preds_ind_simple; intros l l' k H Hs.
   - cbn in H. inversion H; subst. assumption.
-  - cbn [apply_preds] in H. destruct skip as [|sk].
-    + match type of H with bind ?x _ = _ => destruct x as [l1|] eqn:Hf end; cbn [bind] in H; [|discriminate].
-      eapply IH; [exact H|]. eapply subseq_sortedZ; [eapply filter_idx_subseq; exact Hf|assumption].
-    + eapply IH; eauto.
+  - cbn [apply_preds] in H.
+    match type of H with bind ?x _ = _ => destruct x as [l1|] eqn:Hf end; cbn [bind] in H; [|discriminate].
+    eapply IH; [exact H|]. eapply subseq_sortedZ; [eapply filter_idx_subseq; exact Hf|assumption].
 Qed.
 
 (* as coded text(): the text nodes of the term nodes of a sorted set are sorted *)
@@ -231,48 +230,32 @@ Proof. intro H. unfold step_union. apply filter_sortedZ. apply all_items_sorted.
 Lemma cands_sorted fl t ax nt c : wf_tree t -> sortedZ (-1) (cands fl t ax nt c) = true.
 Proof. intro H. unfold cands. apply filter_sortedZ. apply all_items_sorted. exact H. Qed.
 
-Lemma step_body_sorted fl t nca0 S0 ds ax nt hp ap fastp fastv r :
-  wf_tree t -> f_alldup fl = false ->
+Lemma step_body_sorted fl t S0 ds ax nt ap r :
+  wf_tree t ->
   sortedZ (-1) S0 = true ->
-  (forall nca rv sk l l', sortedZ (-1) l = true -> ap nca rv sk l = Ok l' -> sortedZ (-1) l' = true) ->
-  step_body fl t nca0 S0 ds ax nt hp ap fastp fastv = Ok (VSet r) ->
+  (forall rv l l', sortedZ (-1) l = true -> ap rv l = Ok l' -> sortedZ (-1) l' = true) ->
+  step_body fl t S0 ds ax nt ap = Ok (VSet r) ->
   sortedZ (-1) r = true.
 Proof.
-  intros Hwf Hdup HS0 Hap H. unfold step_body in H.
+  intros Hwf HS0 Hap H. unfold step_body in H.
   destruct (is_ns_axis ax).
   { destruct (f_nsaxis fl); inversion H; reflexivity. }
   destruct (is_attr_axis ax).
-  { match type of H with (if ?c then _ else _) = _ => destruct c end; inversion H; reflexivity. }
-  rewrite Hdup in H. cbn [andb] in H.
-  match type of H with bind ?x _ = _ => destruct x as [u|] end; cbn [bind] in H; [|discriminate].
-  set (S := if ds && negb (f_dslash fl && match nt with TNode | TText => true | _ => false end)
-            then step_union fl t AxDescendantOrSelf TNode S0 else S0) in *.
+  { inversion H; reflexivity. }
+  set (S := if ds then step_union fl t AxDescendantOrSelf TNode S0 else S0) in *.
   assert (HS : sortedZ (-1) S = true).
-  { subst S. match goal with |- sortedZ _ (if ?c then _ else _) = _ => destruct c end;
-      [apply step_union_sorted; assumption|assumption]. }
+  { subst S. destruct ds; [apply step_union_sorted; assumption|assumption]. }
   match type of H with (if ?c then _ else _) = _ => destruct c end.
   - (* as coded text() *)
-    match type of H with (if ?c then _ else _) = _ => destruct c end; [discriminate|].
     match type of H with bind ?x _ = _ => destruct x as [l|] eqn:Hl end; cbn [bind] in H; [|discriminate].
     inversion H; subst r. eapply Hap; [|exact Hl].
     destruct (is_child_axis ax); [apply text_map_sorted; exact HS|reflexivity].
-  - match type of H with bind ?x _ = _ => destruct x as [u2|] end; cbn [bind] in H; [|discriminate].
-    destruct (f_predglobal fl).
-    + (* positions over the whole step result *)
-      assert (Hall : sortedZ (-1) (step_union fl t ax nt S) = true) by (apply step_union_sorted; assumption).
-      assert (Hgen : forall rv sk nca,
-                 bind (ap nca rv sk (step_union fl t ax nt S)) (fun l => Ok (VSet l)) = Ok (VSet r) ->
-                 sortedZ (-1) r = true).
-      { intros rv sk nca Hg. destruct (ap nca rv sk (step_union fl t ax nt S)) as [l|] eqn:Hl; cbn [bind] in Hg;
-          [|discriminate]. inversion Hg; subst r. eapply Hap; [exact Hall|exact Hl]. }
-      destruct (fastp (step_union fl t ax nt S)) as [[n0 keys]|]; [|eapply Hgen; exact H].
-      destruct (fastv n0 keys) as [vs|]; [|eapply Hgen; exact H].
-      match type of H with bind ?x _ = _ => destruct x as [l|] eqn:Hl end; cbn [bind] in H; [|discriminate].
-      inversion H; subst r. eapply Hap; [|exact Hl]. apply filter_sortedZ. exact Hall.
-    + (* per context node, merged *)
-      match type of H with bind ?x _ = _ => destruct x as [l|] eqn:Hl end; cbn [bind] in H; [|discriminate].
+  - destruct (f_predglobal fl).
+    + match type of H with bind ?x _ = _ => destruct x as [l|] eqn:Hl end; cbn [bind] in H; [|discriminate].
+      inversion H; subst r. eapply Hap; [|exact Hl]. apply step_union_sorted. exact Hwf.
+    + match type of H with bind ?x _ = _ => destruct x as [l|] eqn:Hl end; cbn [bind] in H; [|discriminate].
       inversion H; subst r.
-      refine (fold_merge_sorted (fun l0 => ap _ _ _ l0) (cands fl t ax nt) _ _ S [] l _ Hl).
+      refine (fold_merge_sorted (fun l0 => ap _ l0) (cands fl t ax nt) _ _ S [] l _ Hl).
       * intro c. apply cands_sorted. exact Hwf.
       * intros l0 l' Hs0 Hl0. eapply Hap; eauto.
       * reflexivity.
@@ -281,13 +264,8 @@ Qed.
 (* ------------------------------------------------------------------------------------------------ *)
 (* every node-set value is in document order without duplicates                                     *)
 (* ------------------------------------------------------------------------------------------------ *)
-Lemma fun1_set fl t f cx v l : fun1 fl t f cx v = Ok (VSet l) -> l = [c_item cx].
-Proof.
-  unfold fun1, floor_f. destruct f; try discriminate;
-    try (destruct v; discriminate); intro H.
-  destruct (f_floor fl); [|discriminate].
-  destruct (impl_floor (num_of fl t v)); [discriminate|]. inversion H. reflexivity.
-Qed.
+Lemma fun1_noset fl t f v l : fun1 fl t f v = Ok (VSet l) -> False.
+Proof. unfold fun1. destruct f; try discriminate; destruct v; discriminate. Qed.
 
 Lemma fun2_noset fl t f a b l : fun2 fl t f a b = Ok (VSet l) -> False.
 Proof. unfold fun2. destruct f; discriminate. Qed.
@@ -298,10 +276,10 @@ Proof. unfold fun3. destruct f; discriminate. Qed.
 Lemma singleton_sorted it : sortedZ (-1) [it] = true.
 Proof. cbn. unfold zkey. replace (-1 <? Z.of_N (item_key it)) with true by lia. reflexivity. Qed.
 
-Theorem eval_sortedZ fl t : wf_tree t -> f_alldup fl = false ->
+Theorem eval_sortedZ fl t : wf_tree t ->
   forall e cx l, eval fl t cx e = Ok (VSet l) -> sortedZ (-1) l = true.
 Proof.
-  intros Hwf Hdup.
+  intros Hwf.
   induction e as [| |base IHb ds ax nt ps|e' IHe ps|a IHa b IHb|a IHa b IHb|op a IHa b IHb|op a IHa b IHb|a IHa
                  |a IHa b IHb|s|s|f|f a IHa|f a IHa b IHb|f a IHa b IHb c IHc];
     intros cx l H; cbn [eval] in H.
@@ -309,26 +287,24 @@ Proof.
   - inversion H. apply singleton_sorted.
   - destruct (eval fl t cx base) as [bv|] eqn:Hb; cbn [bind] in H; [|discriminate].
     destruct bv as [S0|s|x|bb].
-    + refine (step_body_sorted fl t _ S0 ds ax nt _ _ _ _ l Hwf Hdup (IHb _ _ Hb) _ H).
-      intros nca rv sk l0 l' Hs Hl. eapply apply_preds_sorted; eauto.
-    + unfold step_nonset in H. destruct (f_nonset fl); [|discriminate].
-      destruct nt as [p n|[p|]| | |]; try discriminate. inversion H. reflexivity.
-    + unfold step_nonset in H. destruct (f_nonset fl); [|discriminate].
-      destruct nt as [p n|[p|]| | |]; try discriminate. inversion H. reflexivity.
-    + unfold step_nonset in H. destruct (f_nonset fl); [|discriminate].
-      destruct nt as [p n|[p|]| | |]; try discriminate. inversion H. reflexivity.
+    + refine (step_body_sorted fl t S0 ds ax nt _ l Hwf (IHb _ _ Hb) _ H).
+      intros rv l0 l' Hs Hl. eapply apply_preds_sorted; eauto.
+    + unfold step_nonset in H. match type of H with (if ?c then _ else _) = _ => destruct c end;
+        inversion H; reflexivity.
+    + unfold step_nonset in H. match type of H with (if ?c then _ else _) = _ => destruct c end;
+        inversion H; reflexivity.
+    + unfold step_nonset in H. match type of H with (if ?c then _ else _) = _ => destruct c end;
+        inversion H; reflexivity.
   - destruct (eval fl t cx e') as [v|] eqn:He; cbn [bind] in H; [|discriminate].
     destruct v as [l0|s|x|bb]; try discriminate.
     match type of H with bind ?x _ = _ => destruct x as [l1|] eqn:Hl end; cbn [bind] in H; [|discriminate].
     inversion H; subst l. eapply apply_preds_sorted; [exact Hl|]. eapply IHe; exact He.
   - destruct (eval fl t cx a) as [va|]; cbn [bind] in H; [|discriminate].
-    destruct (to_bool va).
-    + destruct (f_skip fl && skip_clobbers b); inversion H. reflexivity.
-    + destruct (eval fl t cx b); cbn [bind] in H; discriminate.
+    destruct (to_bool va); [discriminate|].
+    destruct (eval fl t cx b); cbn [bind] in H; discriminate.
   - destruct (eval fl t cx a) as [va|]; cbn [bind] in H; [|discriminate].
-    match type of H with (if ?c then _ else _) = _ => destruct c end.
-    + destruct (eval fl t cx b); cbn [bind] in H; discriminate.
-    + destruct (f_skip fl && skip_clobbers b); inversion H. reflexivity.
+    destruct (to_bool va); [|discriminate].
+    destruct (eval fl t cx b); cbn [bind] in H; discriminate.
   - destruct (eval fl t cx a); cbn [bind] in H; [|discriminate].
     destruct (eval fl t cx b); cbn [bind] in H; discriminate.
   - destruct (eval fl t cx a); cbn [bind] in H; [|discriminate].
@@ -337,14 +313,13 @@ Proof.
   - destruct (eval fl t cx a) as [va|] eqn:Ha; cbn [bind] in H; [|discriminate].
     destruct (eval fl t cx b) as [vb|] eqn:Hb; cbn [bind] in H; [|discriminate].
     destruct va as [l1|s|x|bb]; try discriminate. destruct vb as [l2|s|x|bb]; try discriminate.
-    rewrite Hdup in H. cbn [andb] in H.
     inversion H; subst l. apply merge_sortedZ; [eapply IHa; exact Ha|eapply IHb; exact Hb].
   - discriminate.
   - discriminate.
   - destruct f; try discriminate; try (inversion H; apply singleton_sorted);
-      try (apply fun1_set in H; subst l; apply singleton_sorted).
+      try (exfalso; eapply fun1_noset; exact H).
   - destruct (eval fl t cx a) as [va|]; cbn [bind] in H; [|discriminate].
-    apply fun1_set in H. subst l. apply singleton_sorted.
+    exfalso. eapply fun1_noset; exact H.
   - destruct (eval fl t cx a) as [va|]; cbn [bind] in H; [|discriminate].
     destruct (eval fl t cx b) as [vb|]; cbn [bind] in H; [|discriminate].
     exfalso. eapply fun2_noset; exact H.
@@ -355,9 +330,9 @@ Proof.
 Qed.
 
 (* in the vocabulary of XPathTree: strictly increasing keys = document order, no duplicates *)
-Theorem eval_nodeset_sorted_nodup fl t : wf_tree t -> f_alldup fl = false ->
+Theorem eval_nodeset_sorted_nodup fl t : wf_tree t ->
   forall e cx l, eval fl t cx e = Ok (VSet l) -> sorted_items l = true.
-Proof. intros Hwf Hd e cx l H. rewrite sorted_items_Z. eapply eval_sortedZ; eauto. Qed.
+Proof. intros Hwf e cx l H. rewrite sorted_items_Z. eapply eval_sortedZ; eauto. Qed.
 
 Lemma sortedZ_nodup l : forall k, sortedZ k l = true -> NoDup (map item_key l).
 Proof.
@@ -367,9 +342,9 @@ Proof.
   pose proof (sortedZ_all_gt _ _ (sortedZ_tail _ _ _ H) m Hm). unfold zkey in *. lia.
 Qed.
 
-Corollary eval_nodeset_nodup fl t : wf_tree t -> f_alldup fl = false ->
+Corollary eval_nodeset_nodup fl t : wf_tree t ->
   forall e cx l, eval fl t cx e = Ok (VSet l) -> NoDup (map item_key l).
-Proof. intros Hwf Hd e cx l H. eapply sortedZ_nodup. eapply eval_sortedZ; eauto. Qed.
+Proof. intros Hwf e cx l H. eapply sortedZ_nodup. eapply eval_sortedZ; eauto. Qed.
 
 (* ------------------------------------------------------------------------------------------------ *)
 (* laws                                                                                             *)
@@ -383,8 +358,6 @@ Proof.
   destruct (eval fl t cx a) as [va|]; cbn [bind] in *; [|discriminate].
   destruct (eval fl t cx b) as [vb|]; cbn [bind] in *; [|discriminate].
   destruct va as [la|s|x|bb]; try discriminate; destruct vb as [lb|s|x|bb]; try discriminate.
-  match type of H1 with (if ?c then _ else _) = _ => destruct c end; [discriminate|].
-  match type of H2 with (if ?c then _ else _) = _ => destruct c end; [discriminate|].
   inversion H1; inversion H2; subst. apply merge_comm_keys.
 Qed.
 
@@ -395,8 +368,8 @@ Proof.
 Qed.
 
 (* e[true()] = e : a predicate that is true for every node filters nothing *)
-Theorem predicate_true_identity fl t cx nca rv r l :
-  apply_preds fl t cx nca rv 0 (PCons (EFun0 FTrue) r) l = apply_preds fl t cx nca rv 0 r l.
+Theorem predicate_true_identity fl t cx rv r l :
+  apply_preds fl t cx rv (PCons (EFun0 FTrue) r) l = apply_preds fl t cx rv r l.
 Proof.
   cbn [apply_preds]. rewrite filter_idx_all_true; [reflexivity|].
   intros it j. reflexivity.
@@ -406,7 +379,7 @@ Lemma eval_filter_eq fl t cx e ps :
   eval fl t cx (EFilter e ps) =
   bind (eval fl t cx e) (fun v =>
     match v with
-    | VSet l => bind (apply_preds fl t cx (nca_of e (c_nca cx)) false 0 ps l) (fun l' => Ok (VSet l'))
+    | VSet l => bind (apply_preds fl t cx false ps l) (fun l' => Ok (VSet l'))
     | _ => Err E_TYPE
     end).
 Proof. reflexivity. Qed.
@@ -415,11 +388,7 @@ Lemma eval_step_eq fl t cx base ds ax nt ps :
   eval fl t cx (EStep base ds ax nt ps) =
   bind (eval fl t cx base) (fun bv =>
     match bv with
-    | VSet S0 =>
-        step_body fl t (nca_of base (c_nca cx)) S0 ds ax nt (match ps with PNil => false | _ => true end)
-          (fun nca rv skip l => apply_preds fl t cx nca rv skip ps l)
-          (fast_pre fl ax ds nt ps)
-          (fun n0 keys => fast_vals fl t cx n0 keys ps)
+    | VSet S0 => step_body fl t S0 ds ax nt (fun rv l => apply_preds fl t cx rv ps l)
     | _ => step_nonset fl nt
     end).
 Proof. reflexivity. Qed.
@@ -437,8 +406,8 @@ Theorem child_step_is_filter_of_children t cx nt :
   Ok (VSet (filter (fun m => is_parent (c_item cx) m && node_test spec_flags nt (c_item cx) m) (all_items t))).
 Proof.
   rewrite eval_step_eq. cbn [eval bind]. unfold step_body.
-  cbn [is_ns_axis is_attr_axis is_child_axis spec_flags f_nsaxis f_attrnode f_dslash f_assert f_crash f_text
-       f_predglobal andb orb negb bind fold_res nonchild_axis reverse_axis apply_preds].
+  cbn [is_ns_axis is_attr_axis is_child_axis spec_flags f_nsaxis f_text
+       f_predglobal andb orb negb bind fold_res reverse_axis apply_preds].
   rewrite merge_nil_l. reflexivity.
 Qed.
 
@@ -499,7 +468,7 @@ Theorem step_no_preds_is_union t cx base ax nt S0 : wf_tree t ->
   eval spec_flags t cx (EStep base false ax nt PNil) = Ok (VSet (step_union spec_flags t ax nt S0)).
 Proof.
   intros Hwf Hns Hat Hb. rewrite eval_step_eq, Hb. cbn [bind]. unfold step_body. rewrite Hns, Hat.
-  cbn [spec_flags f_dslash f_assert f_crash f_text f_predglobal andb orb negb bind apply_preds].
+  cbn [spec_flags f_text f_predglobal andb orb negb bind apply_preds].
   pose proof (fold_merge_cands (fun c m => axis_rel spec_flags ax c m && node_test spec_flags nt c m)
                 (all_items t) (-1) (all_items_sorted t Hwf) S0 []) as HF.
   cbn [existsb app bind] in HF. rewrite filter_false in HF.
@@ -518,7 +487,7 @@ Proof.
              (step_union spec_flags t AxDescendantOrSelf TNode S0) Hwf Hns Hat)
     by (apply step_no_preds_is_union; auto).
   rewrite eval_step_eq, Hb. cbn [bind]. unfold step_body. rewrite Hns, Hat.
-  cbn [spec_flags f_dslash f_assert f_crash f_text f_predglobal andb orb negb bind apply_preds].
+  cbn [spec_flags f_text f_predglobal andb orb negb bind apply_preds].
   pose proof (fold_merge_cands (fun c m => axis_rel spec_flags ax c m && node_test spec_flags nt c m)
                 (all_items t) (-1) (all_items_sorted t Hwf)
                 (step_union spec_flags t AxDescendantOrSelf TNode S0) []) as HF.
@@ -556,8 +525,8 @@ Lemma key_pred_value t cxi m k v :
                      (cands spec_flags t AxChild (TName (Some m) k) (c_item cxi)))).
 Proof.
   cbn [eval bind]. unfold step_body.
-  cbn [is_ns_axis is_attr_axis is_child_axis spec_flags f_nsaxis f_attrnode f_dslash f_assert f_crash f_text
-       f_predglobal andb orb negb bind fold_res nonchild_axis reverse_axis apply_preds].
+  cbn [is_ns_axis is_attr_axis is_child_axis spec_flags f_nsaxis f_text
+       f_predglobal andb orb negb bind fold_res reverse_axis apply_preds].
   rewrite merge_nil_l. cbn [bind cmp_values]. rewrite cmp_set_str_spec. reflexivity.
 Qed.
 
@@ -570,16 +539,16 @@ Theorem fastpath_equiv t cx m ln k v :
                    (cands spec_flags t AxChild (TName (Some m) ln) (c_item cx)))).
 Proof.
   rewrite eval_step_eq. cbn [eval bind]. unfold step_body.
-  cbn [is_ns_axis is_attr_axis is_child_axis spec_flags f_nsaxis f_attrnode f_dslash f_assert f_crash f_text
-       f_predglobal andb orb negb bind fold_res nonchild_axis reverse_axis].
-  change (apply_preds spec_flags t cx ?a ?b 0
+  cbn [is_ns_axis is_attr_axis is_child_axis spec_flags f_nsaxis f_text
+       f_predglobal andb orb negb bind fold_res reverse_axis].
+  change (apply_preds spec_flags t cx ?b
             (PCons (ECmp CEq (EStep ECtx false AxChild (TName (Some m) k) PNil) (ELit v)) PNil) ?l)
     with (bind (filter_idx (fun it i =>
                   bind (eval spec_flags t
                           {| c_item := it; c_pos := (if b then N.of_nat (length l) + 1 - i else i)%N;
-                             c_size := N.of_nat (length l); c_cur := c_cur cx; c_nca := a |}
+                             c_size := N.of_nat (length l); c_cur := c_cur cx |}
                           (ECmp CEq (EStep ECtx false AxChild (TName (Some m) k) PNil) (ELit v)))
-                       (fun v0 => Ok (pred_true spec_flags v0 (if b then N.of_nat (length l) + 1 - i else i)%N)))
+                       (fun v0 => Ok (pred_true v0 (if b then N.of_nat (length l) + 1 - i else i)%N)))
                   l 1%N)
                (fun l' => Ok l')).
   erewrite filter_idx_ext.
